@@ -10,7 +10,12 @@ student program computes or what a call receives) whose truth is in the shape of
       to an equal value of the same type, or as a temporary variable bound to the very object;
   R3  the value handed back by call()/evaluate() is the object the student code stored in the target;
   R4  the line reported for an exception is the raising line of the innermost traceback entry, however deep;
-  R5  the buffer standing in for sys.stdout records written text verbatim (no newline translation).
+  R5  the buffer standing in for sys.stdout records written text verbatim (no newline translation);
+  R6  input() returns the queued text itself (blanks, tabs and case kept);
+  R7  an allowed import is handed to the real __import__ with the very arguments the import statement produced;
+  R8  ending an execution removes or rebinds none of the names the program defined;
+  R9  nothing in pedal.sandbox changes interpreter-wide state a student program can observe (random, recursion limit,
+      working directory, locale, decimal context, warnings filters).
 """
 import ast
 
@@ -276,14 +281,159 @@ def r5_output_verbatim(ctx, sym, mod):
     ctx.floor('R5', 'print settings', n, 3)
 
 
+def r6_inputs_verbatim(ctx, sym, mod):
+    ctx.rule('R6', "the input tracker closure executed abstractly over queues whose entries have leading/trailing "
+                   "blanks, tabs, mixed case or are empty: input() hands the student program the queued text itself")
+    from .c15 import input_tracker_cells
+    n = 0
+    for queue, prompt, got, left, recorded, printed, inner in input_tracker_cells(ctx, mod, sym):
+        if not queue:
+            continue
+        n += 1
+        ctx.check(got == queue[0], 'R6', 'input-returns-the-queued-text[%r,prompt=%r]' % (queue[0], prompt), mod, inner,
+                  "with %r queued, input(%r) returns %r" % (queue[0], prompt, got),
+                  "name = input(); print(len(name)) with the input 'Ada  ' prints 3, plain Python prints 5")
+    ctx.floor('R6', 'queued inputs', n, 8)
+
+
+def r7_imports_delegated(ctx, sym):
+    ctx.rule('R7', "the import replacement built by create_import_function executed abstractly for plain, dotted, "
+                   "from- (incl. submodule and *) and relative imports of modules that are neither pedal nor a "
+                   "submission file: the real __import__ is called exactly once with the very name, globals, locals, "
+                   "fromlist and level it was given, and its result is handed back")
+    from .c04 import restricted_import_cells, MOCKED
+    mm = ctx.repo.module(MOCKED)
+    ri = mm.func('create_import_function.<locals>._restricted_import')
+    n = 0
+    for name, g, l, fromlist, level, outcome, real_calls, own_calls, result, student_module, other in \
+            restricted_import_cells(ctx, sym):
+        if name == 'pedal' or name.startswith('pedal.') or name == 'helper':
+            continue
+        n += 1
+        want_fromlist, want_level = (fromlist, level) if fromlist is not None else ((), 0)
+        ok = outcome == ('returns', result) and len(real_calls) == 1 and not other
+        if ok:
+            a, k = real_calls[0][1], real_calls[0][2]
+            got = dict(zip(('name', 'globals', 'locals', 'fromlist', 'level'), a))
+            got.update(k)
+            ok = got.get('name') == name and got.get('globals') is g and got.get('locals') is l and \
+                tuple(got.get('fromlist') or ()) == tuple(want_fromlist or ()) and got.get('level', 0) == want_level
+        ctx.check(ok, 'R7', 'import-delegated-unchanged[%s,fromlist=%r,level=%r]' % (name, fromlist, level), mm, ri,
+                  "importing %s with fromlist %r and level %r: %s; the real __import__ was called %d time(s) with %r%s" % (
+                      name, fromlist, level, '%s %r' % outcome, len(real_calls), [c[1] for c in real_calls],
+                      ', another import function %d time(s)' % len(other) if other else ''),
+                  "`from email import utils` raises ImportError in the sandbox when email.utils was not imported before")
+    ctx.floor('R7', 'allowed import forms', n, 7)
+
+
+def r8_namespace_kept(ctx, sym, mod):
+    ctx.rule('R8', "Sandbox._stop_mocking executed abstractly on a sandbox whose student namespace holds ordinary "
+                   "globals and globals named like overridden builtins (open, exit, input, compile): when the "
+                   "execution ends every name the program defined is still bound to the very object it stored")
+    from .. import symexec
+    from .c05 import sandbox_self
+    st = mod.func('Sandbox._stop_mocking')
+    ctx.analysed_function(mod, st)
+    rec = symexec.Recorder()
+    student = {'total': Obj('student value total'), 'open': Obj('student value open'),
+               'exit': Obj('student function exit'), 'input': Obj('student value input'),
+               'compile': Obj('student function compile'), '__name__': '__main__'}
+    data = dict(student)
+    data['__builtins__'] = {'open': 'mock-open'}
+    buffer = Obj('buffer', text='out')
+    symexec.method(buffer, 'getvalue', lambda: 'out')
+    symexec.method(buffer, 'flush', lambda: None)
+    me = sandbox_self(ctx, sym, mod, stdout=[buffer], data=data, modules={},
+                      _module_overrides={'__builtins__': {'open': 'mock-open', 'exit': False, 'input': 'tracker',
+                                                          'compile': False, 'eval': False}, 'os': True})
+    for name in ('_stop_patches', 'append_output', 'mock_function', '_reset_builtins', '_mock_builtins'):
+        symexec.method(me, name, rec.stub(name))
+    _, raised = symexec.run(symexec.new_fd(sym, mod), st, [Obj('context', inputs=[])], bound_self=me,
+                            what='Sandbox._stop_mocking')
+    now = me.attrs['data']
+    lost = sorted(k for k, v in student.items() if not (k in now and now[k] is v))
+    ctx.check(raised is None and not lost, 'R8', '_stop_mocking:student-globals-kept', mod, st,
+              "after the execution ends the student's globals %r are gone or rebound%s" % (
+                  lost, '' if raised is None else ' (raises %s)' % raised.kind),
+              "`open = 9 <= hour < 17` at top level: the variable exists after a plain run and is missing from the "
+              "sandbox's data")
+
+
+# interpreter-wide state a student program can observe, and the calls that change it (sys.settrace is owned by the
+# tracers and decided under C05)
+_AMBIENT = {
+    'random': None,     # every call draws from or reseeds the generator a seeded student program relies on
+    'sys': {'setrecursionlimit', 'setswitchinterval', 'set_int_max_str_digits', 'setprofile', 'set_asyncgen_hooks'},
+    'os': {'chdir', 'umask', 'putenv', 'unsetenv', 'fchdir'},
+    'locale': {'setlocale'},
+    'decimal': {'setcontext', 'getcontext'},
+    'time': {'tzset'},
+    'gc': {'disable', 'enable', 'freeze', 'set_threshold'},
+    'warnings': {'simplefilter', 'filterwarnings', 'resetwarnings'},
+    'threading': {'setprofile', 'settrace', 'stack_size'},
+}
+
+
+def r9_ambient_state(ctx, sym):
+    ctx.rule('R9', "no function of pedal.sandbox changes interpreter-wide state that student code can observe outside "
+                   "the patches it undoes (who-may-call sweep over resolved stdlib callees: random.*, "
+                   "sys.setrecursionlimit & co, os.chdir/umask/putenv, locale.setlocale, decimal contexts, gc, "
+                   "warnings filters; assignments into os.environ)")
+    from ..astutil import call_name
+    from ..loader import enclosing_function
+    n = 0
+    for m in ctx.repo.modules.values():
+        if not (m.name == 'pedal.sandbox' or m.name.startswith('pedal.sandbox.')):
+            continue
+        n += 1
+        imported = {}
+        for node in ast.walk(m.tree):
+            if isinstance(node, ast.Import):
+                for a in node.names:
+                    imported[a.asname or a.name.split('.')[0]] = a.name.split('.')[0]
+            elif isinstance(node, ast.ImportFrom) and node.module and node.level == 0:
+                for a in node.names:
+                    imported[a.asname or a.name] = node.module.split('.')[0] + '.' + a.name
+        for c in ast.walk(m.tree):
+            if isinstance(c, ast.Call):
+                d = call_name(c) or ''
+                head, _, rest = d.partition('.')
+                target = imported.get(head)
+                if target is None:
+                    continue
+                full = target + ('.' + rest if rest else '')
+                modname, _, fn = full.partition('.')
+                fn = fn.split('.')[0]
+                deny = _AMBIENT.get(modname, ())
+                if modname in _AMBIENT and fn and (deny is None or fn in deny):
+                    q = getattr(enclosing_function(c), '_qualname', '<module>')
+                    ctx.fail('R9', 'ambient-state:%s@%s' % (full, q), m, c,
+                             "%s changes interpreter-wide state that the student's program observes" % full,
+                             "a program that seeds random at module level, then call() of a function that draws "
+                             "numbers: the values differ from a plain run", function=q)
+            targets = c.targets if isinstance(c, ast.Assign) else [c.target] if isinstance(c, ast.AugAssign) else []
+            for t in targets:
+                if isinstance(t, ast.Subscript) and ast.unparse(t.value) in ('os.environ',) and imported.get('os') == 'os':
+                    q = getattr(enclosing_function(c), '_qualname', '<module>')
+                    ctx.fail('R9', 'ambient-state:os.environ@%s' % q, m, c,
+                             "an environment variable is set for the whole process",
+                             "os.environ.get(...) in student code sees a value a plain run does not", function=q)
+    ctx.ok('R9', 'sweep', sample={'modules': n})
+    ctx.floor('R9', 'sandbox modules swept', n, 5)
+
+
 def run(ctx):
     sym = Symbols(ctx.repo)
     mod = ctx.repo.module(SANDBOX)
+    r9_ambient_state(ctx, sym)      # (a sweep: first, so that it reports even where an execution rule cannot interpret the call)
     r1_source_unmodified(ctx, sym, mod)
     r2_arguments(ctx, sym, mod)
     r3_result(ctx, sym, mod)
     r4_exception_line(ctx, sym)
     r5_output_verbatim(ctx, sym, mod)
+    r6_inputs_verbatim(ctx, sym, mod)
+    r7_imports_delegated(ctx, sym)
+    r8_namespace_kept(ctx, sym, mod)
     ctx.assume("observational equivalence itself (printed text, global values, exception kind and line for every "
                "program and input) is NOT decided: only the three structural clauses above, each a necessary "
                "condition of it; the input tracker's behaviour is decided under C15.R4, the patches' restoration "
